@@ -2,13 +2,10 @@
     a masked last word, then a backward loop with a break (recursion on fuel). *)
 From Coq Require Import ZArith List Lia Bool.
 From Low Require Import Lib.MachInt Lib.Bits Lib.BitSeq Lib.TransLib Proofs.TransEqLemmas.
-From Low Require Model.BitmapNext Proofs.TransEq_bitmap_NextOne.
+From Low Require Model.BitmapNext.
 From LowGen Require Trans.
 Import ListNotations.
 Open Scope Z_scope.
-
-Notation words := TransEq_bitmap_NextOne.words.
-Notation word_of := TransEq_bitmap_NextOne.word_of.
 
 (** hypotheses under which no int32 operation of the code wraps: a non-negative start, a positive end; EVERY fuel *)
 Lemma TransEq_bitmap_PrevOne_fuel fuel bm i e0 : words bm -> 0 <= i < 2 ^ 31 -> 0 < e0 < 2 ^ 31 ->
